@@ -1,30 +1,38 @@
 #!/usr/bin/env python3
-"""Applies every seeded change to /repo in turn (git apply / git checkout), runs the quick check of its property and
-records in seeded/<seed>/meta.json whether a VIOLATION was raised.  Refuses on a dirty /repo."""
-import json,os,subprocess,sys,glob,re
-if subprocess.run(['git','-C','/repo','status','--porcelain'],capture_output=True,text=True).stdout.strip():
-    print("REFUSING: /repo has uncommitted changes"); sys.exit(3)
+"""Applies every seeded change in turn to a scratch worktree of /repo's HEAD (never to /repo itself), runs the quick
+check of its property there (govc check -repo <worktree>) and records in seeded/<seed>/meta.json whether a VIOLATION
+was raised.  The worktree (/tmp/govc_seedwt/repo) is removed at the end.  Usage: run_seeds.py [seed-or-property ...]"""
+import json,os,subprocess,sys,glob,re,shutil
+WT='/tmp/govc_seedwt/repo'
+def sh(*a,**k): return subprocess.run(list(a),capture_output=True,text=True,**k)
+sh('git','-C','/repo','worktree','remove','--force',WT); shutil.rmtree('/tmp/govc_seedwt',ignore_errors=True); sh('git','-C','/repo','worktree','prune')
+os.makedirs('/tmp/govc_seedwt',exist_ok=True)
+r=sh('git','-C','/repo','worktree','add','--detach',WT,'HEAD')
+if r.returncode!=0: print(r.stderr); sys.exit(3)
 claimed=[c['property_id'] for c in json.load(open('/verif/MANIFEST.json'))['checks']]
 only=sys.argv[1:]
 rows=[]
-for d in sorted(glob.glob('/verif/seeded/*/')):
-    meta=json.load(open(d+'meta.json'))
-    if only and meta['seed'] not in only and meta['property'] not in only: continue
-    pid=meta['property']
-    if pid not in claimed:
-        meta['detected_by']={"status":"property not claimed yet"}; json.dump(meta,open(d+'meta.json','w'),indent=1); rows.append((meta['seed'],'not-claimed')); continue
-    r=subprocess.run(['git','-C','/repo','apply',d+'patch.diff'],capture_output=True,text=True)
-    if r.returncode!=0:
-        meta['detected_by']={"status":"patch does not apply to current /repo","stderr":r.stderr[:300]}; rows.append((meta['seed'],'no-apply'))
-    else:
-        try:
-            out=subprocess.run(['/verif/bin/govc','check','-property',pid,'-no-evidence'],capture_output=True,text=True,cwd='/verif').stdout
-        finally:
-            subprocess.run(['git','-C','/repo','checkout','--','.'])
-        viol=[l.strip() for l in out.splitlines() if 'failed obligation' in l]
-        cannot=[l.strip() for l in out.splitlines() if l.startswith('cannot decide')]
-        status='VIOLATION' if viol else ('cannot-decide' if cannot else 'missed')
-        meta['detected_by']={"status":status,"check":f"./bin/govc check -property {pid} -tier quick","failed_obligations":[re.sub(r'\s+\[.*$','',v.replace('failed obligation: ','')) for v in viol][:8],"cannot_decide":cannot[:3]}
-        rows.append((meta['seed'],status))
-    json.dump(meta,open(d+'meta.json','w'),indent=1)
-for r in rows: print(*r)
+try:
+    for d in sorted(glob.glob('/verif/seeded/*/')):
+        meta=json.load(open(d+'meta.json'))
+        if only and meta['seed'] not in only and meta['property'] not in only: continue
+        pid=meta['property']
+        if pid not in claimed:
+            meta['detected_by']={"status":"property not claimed"}; json.dump(meta,open(d+'meta.json','w'),indent=1); rows.append((meta['seed'],'not-claimed')); continue
+        r=sh('git','-C',WT,'apply',d+'patch.diff')
+        if r.returncode!=0:
+            meta['detected_by']={"status":"patch does not apply to current /repo","stderr":r.stderr[:300]}; rows.append((meta['seed'],'no-apply'))
+        else:
+            try:
+                out=sh('/verif/bin/govc','check','-property',pid,'-no-evidence','-repo',WT,cwd='/verif').stdout
+            finally:
+                sh('git','-C',WT,'checkout','--','.'); sh('git','-C',WT,'clean','-fdq')
+            viol=[l.strip() for l in out.splitlines() if 'failed obligation' in l]
+            cannot=[l.strip() for l in out.splitlines() if l.startswith('cannot decide')]
+            status='VIOLATION' if viol else ('cannot-decide' if cannot else 'missed')
+            meta['detected_by']={"status":status,"check":f"./bin/govc check -property {pid} -tier quick","failed_obligations":[re.sub(r'\s+\[.*$','',v.replace('failed obligation: ','')) for v in viol][:8],"cannot_decide":cannot[:3]}
+            rows.append((meta['seed'],status))
+        json.dump(meta,open(d+'meta.json','w'),indent=1)
+        print(*rows[-1],flush=True)
+finally:
+    sh('git','-C','/repo','worktree','remove','--force',WT); shutil.rmtree('/tmp/govc_seedwt',ignore_errors=True); sh('git','-C','/repo','worktree','prune')
